@@ -165,7 +165,7 @@ def oracle(ck):
 
 
 def run(ck):
-    ck.build_theorems("Properties/C16.v", deps=["Lagrange.vo", "LagrangeAll.vo", "KernRun.vo"])
+    ck.build_theorems("Properties/C16.v", deps=["Lagrange.vo", "LagrangeAll.vo", "LagrangeShift.vo", "KernRun.vo"])
     correspondence(ck)
     oracle(ck)
     ck.cov["rule"] = "orders {1..111}, shifts {fractional, integer, larger than the record, zero}, polynomial records, per-sample shift vectors; taps bit-exact vs model; exact-rational model vs textbook product"
